@@ -64,6 +64,42 @@ class FakePopen:
                 pass
 
 
+class _AddressedSocket(socket.socket):
+    """one end of a socketpair which answers getpeername / getsockname like a TCP socket accepted from a given address"""
+
+    _addresses: tuple = (('127.0.0.2', 40000), ('127.0.0.1', 179))
+
+    def getpeername(self):  # type: ignore[override]
+        return self._addresses[0]
+
+    def getsockname(self):  # type: ignore[override]
+        return self._addresses[1]
+
+    def setsockopt(self, *args):  # type: ignore[override]
+        try:
+            return socket.socket.setsockopt(self, *args)
+        except OSError:
+            return None  # TCP options on a unix socketpair
+
+
+class _FakeListeningSocket:
+    """what Listener keeps in _sockets: accept() hands out the queued connections"""
+
+    family = socket.AF_INET
+
+    def __init__(self) -> None:
+        self.queue: list = []
+
+    def accept(self):
+        if not self.queue:
+            raise BlockingIOError(11, 'nothing to accept')
+        io = self.queue.pop(0)
+        return io, io.getpeername()
+
+    def close(self) -> None:
+        self.queue = []
+
+
 class Remote:
     """one transport as seen by the remote speaker"""
 
@@ -414,6 +450,30 @@ class Harness:
             import uuid
 
             self.reactor.asynchronous.schedule(str(uuid.uuid1()), 'refusing connection', denied)
+        self.loop.note_activity()
+        return remote
+
+    def listen(self) -> None:
+        """give the real Listener a listening socket of ours: connections queued with connect_from() are accepted by
+        Listener.incoming() and matched against the neighbors (single addresses and ranges) by Listener.new_connections(),
+        exactly as the reactor loop drives them"""
+        if getattr(self, '_fake_listener', None) is None:
+            self._fake_listener = _FakeListeningSocket()
+            listener = self.reactor.listener
+            listener.serving = True
+            listener._sockets[self._fake_listener] = ('127.0.0.1', 179, '0.0.0.0', None)
+
+    def connect_from(self, remote_ip: str, our_ip: str = '127.0.0.1') -> 'Remote':
+        """a TCP connection from remote_ip reaches the listening socket (see listen())"""
+        self.listen()
+        a, b = socket.socketpair()
+        b.setblocking(False)
+        io = _AddressedSocket(family=a.family, type=a.type, proto=a.proto, fileno=a.detach())
+        io._addresses = ((remote_ip, 40000 + len(self.remotes)), (our_ip, 179))
+        io.setblocking(False)
+        remote = Remote(self, b, 'incoming', f'listener:{remote_ip}')
+        self.remotes.append(remote)
+        self._fake_listener.queue.append(io)
         self.loop.note_activity()
         return remote
 
